@@ -56,6 +56,17 @@ def case_ref(case):
         x2, y2 = latlon_to_xy(lat, lon, rlat, rlon)
         e = max(abs(x2 - x), abs(y2 - y))
         worst["roundtrip_m"] = max(worst["roundtrip_m"], e)
+        # the same position with its longitude written the other ways a longitude is written: in [-180, 180) as a GPS reports it,
+        # in [0, 360), and the reference written those ways - across the Greenwich meridian and the antimeridian nothing may jump
+        for lw, rw, how in (((lon + 180.0) % 360.0 - 180.0, rlon, "point in [-180,180)"), (lon % 360.0, rlon, "point in [0,360)"), (lon, (rlon + 180.0) % 360.0 - 180.0, "reference in [-180,180)"),
+                            ((lon + 180.0) % 360.0 - 180.0, rlon % 360.0, "point in [-180,180), reference in [0,360)")):
+            if (lw, rw) == (lon, rlon):
+                continue
+            x3, y3 = latlon_to_xy(lat, lw, rlat, rw)
+            n += 1
+            if max(abs(x3 - x), abs(y3 - y)) > 1e-5:  # 1e-5 m: reducing a longitude modulo 360 costs ~1e-14 deg
+                bad("longitude-representation", "offset (%.3f, %.3f) m: latlon_to_xy(%.9f, %.9f | ref lon %.9f) [%s] gives (%.6f, %.6f) m" % (x, y, lat, lw, rw, how, x3, y3))
+                break
         if e > 1e-6:
             bad("roundtrip-xy", "(%.3f, %.3f) m -> (%.9f, %.9f) deg -> (%.6f, %.6f) m" % (x, y, lat, lon, x2, y2))
         la3, lo3 = xy_to_latlon(x2, y2, rlat, rlon)
